@@ -38,7 +38,7 @@ const (
 )
 
 func checkC09(c *core.Ctx) []core.Floor {
-	c.Rule = "inputs to the session's tokenise+parse path: (a) every token sequence up to a length bound over the full vocabulary (all keywords, operators, punctuation, identifier, quoted identifier, integer, over-long integer, float, string, raw string, lone quotes) plus longer sequences over a reduced vocabulary; (b) every byte prefix and every token prefix of generated valid statements; (c) token deletions / duplications / swaps of valid statements; (d) quote pathology; (e) numeric pathology in every integer position; (e2) 35 awkward tokens (digit separators, hex/binary/float forms, quoted and unterminated strings, two-character operators, multi-byte and invalid UTF-8, comment openers) at every alignment around the multiples of the scanner's 1024-byte buffer, followed by more text and at the end of the input; (e3) identifiers of 1-12 bytes containing letters whose case folding changes their UTF-8 length or has no single-letter result (ɐ ɫ ȿ ⱥ ß ŉ ﬁ K İ ...); (f) random bytes incl. NUL and invalid UTF-8; (g) deep nesting (10^5 chained OR/AND terms, long lists). Monitors: recover() (panic), logical step budgets on the scanner (64 x (len+16) characters read) and on the token list (4096 x (len+16) reads) enforced from hooks, independent of machine load, allocation bound per batch; a dead driver names its input. Distinct = input text; non-trivial = the input is not a valid statement (the error paths are what is being exercised)."
+	c.Rule = "inputs to the session's tokenise+parse path: (a) every token sequence up to a length bound over the full vocabulary (all keywords, operators, punctuation, identifier, quoted identifier, integer, over-long integer, float, string, raw string, lone quotes) plus longer sequences over a reduced vocabulary; (b) every byte prefix and every token prefix of generated valid statements; (c) token deletions / duplications / swaps of valid statements; (d) quote pathology; (e) numeric pathology in every integer position; (e2) 35 awkward tokens (digit separators, hex/binary/float forms, quoted and unterminated strings, two-character operators, multi-byte and invalid UTF-8, comment openers) at every alignment around the multiples of the scanner's 1024-byte buffer, followed by more text and at the end of the input; (e3) identifiers of 1-12 bytes containing letters whose case folding changes their UTF-8 length or has no single-letter result (ɐ ɫ ȿ ⱥ ß ŉ ﬁ K İ ...); (e4) every scanner state that waits for more input (escape digits, exponent, prefix, open quote, ...) followed by a character at the edge of an encoding class (0x7f / U+0080 / U+07FF / U+0800 / surrogate edges / U+FFFF / U+10000 / U+10FFFF / invalid lead and continuation bytes); (f) random bytes incl. NUL and invalid UTF-8; (g) deep nesting (10^5 chained OR/AND terms, long lists). Monitors: recover() (panic), logical step budgets on the scanner (64 x (len+16) characters read) and on the token list (4096 x (len+16) reads) enforced from hooks, independent of machine load, allocation bound per batch; a dead driver names its input. Distinct = input text; non-trivial = the input is not a valid statement (the error paths are what is being exercised)."
 	c.Assume = []string{"step budgets are orders of magnitude above what the parser uses on valid input (the observed maximum ratio is reported)"}
 	drv := mustDriver(c, false)
 	quick := core.Quick(c)
@@ -257,6 +257,18 @@ func checkC09(c *core.Ctx) []core.Floor {
 		}
 	}
 	add("unicode_case", uc)
+	// (e4) every scanner state that is waiting for more of something (an
+	// escape's digits, an exponent, a hex prefix, an open quote, an identifier,
+	// a sign) followed by a character at the edge of an encoding class
+	var edge []string
+	waiting := []string{"'\\x", "'\\x4", "'\\u12", "'\\U0001", "'ab\\7", "'\\", "\"c\\U0001", "\"\\x", "`", "'", "\"", "1e", "1e+", "0x", "0b", "0o", "1_", "1.", ".", "a", "_", "<", "!", "-", "/", "/*", "//", "12", "0"}
+	runes := []string{"\x00", "\x7f", "\u0080", "\u0081", "\u00ff", "\u0100", "\u07ff", "\u0800", "\ud7ff", "\ue000", "\ufffd", "\ufeff", "\uffff", "\U00010000", "\U0010ffff", "\x80", "\xbf", "\xc0", "\xc2", "\xe0\x80", "\xed\xa0\x80", "\xf4\x90\x80\x80", "\xf8", "\xff"}
+	for _, wt := range waiting {
+		for _, rn := range runes {
+			edge = append(edge, "SELECT "+wt+rn, "SELECT "+wt+rn+"' FROM t", "SELECT * FROM t WHERE a = "+wt+rn+" AND b = 1")
+		}
+	}
+	add("encoding_edges", edge)
 	// (f) random bytes
 	var rnd []string
 	nr := 3000
@@ -307,7 +319,7 @@ func checkC09(c *core.Ctx) []core.Floor {
 	c.Sample(6, map[string]interface{}{"family": "prefixes", "example": pref[len(pref)/2]})
 	c.Sample(6, map[string]interface{}{"family": "mutations", "example": mut[len(mut)/2]})
 	fl := []core.Floor{{Key: "inputs", Min: 50000}}
-	for _, f := range []string{"token_sequences", "valid_statements", "prefixes", "mutations", "clause_sequences", "quotes", "numerics", "buffer_boundary", "unicode_case", "random_bytes", "deep"} {
+	for _, f := range []string{"token_sequences", "valid_statements", "prefixes", "mutations", "clause_sequences", "quotes", "numerics", "buffer_boundary", "unicode_case", "encoding_edges", "random_bytes", "deep"} {
 		fl = append(fl, core.Floor{Key: "family_" + f, Min: 1})
 	}
 	fl = append(fl, core.Floor{Key: "outcome_statement", Min: 1000}, core.Floor{Key: "outcome_error", Min: 1000})
